@@ -227,6 +227,19 @@ def toTimeZone (m : Mode) (p : TP) (z : TZ) : Option TP :=
 
 def toUtc (m : Mode) (p : TP) : Option TP := toTimeZone m p ⟨0, 0⟩
 
+/-- `TimeZone.__init__` bounds and sign rules (`hours`/`minutes` already integral). -/
+def mkTZ (m : Mode) (h mi : Int) : Option TZ :=
+  if h < -99 ∨ h > 99 then none
+  else
+    let lo := if h > 0 then 0 else 1 - (calOf m).minutesInHour
+    let hi := if h < 0 then 0 else (calOf m).minutesInHour - 1
+    if mi < lo ∨ mi > hi then none else some ⟨h, mi⟩
+
+/-- `TimePoint.time_zone_sign`, `time_zone_hour_abs`, `time_zone_minute_abs`. -/
+def tzSign (z : TZ) : Int := if z.h < 0 ∨ z.mi < 0 then -1 else 1
+def tzHourAbs (z : TZ) : Int := if z.h < 0 then -z.h else z.h
+def tzMinuteAbs (z : TZ) : Int := if z.mi < 0 then -z.mi else z.mi
+
 /-! ### comparison, hashing, difference -/
 
 /-- Python list comparison `[*date, second_of_day]`: `-1`, `0`, `1`. -/
